@@ -935,7 +935,8 @@ class NetworkGraph(AbstractBaseIR):
                                     sv_flat = f'{_de_lhs_var(_lhs)}_edge{i}_flat'
                                     eqs.append(f"{sv_flat}' = flatten1d({_rhs_s})")
                                 else:
-                                    expr_map[_lhs] = _rhs_s
+                                    # (an intermediate variable is inlined as a whole: keep it in parentheses)
+                                    expr_map[_lhs] = f"({_rhs_s})"
                             last_out = _od.get('output')
 
                         final_expr = expr_map.get(last_out, last_out)
@@ -961,7 +962,8 @@ class NetworkGraph(AbstractBaseIR):
                             _od = edge_ir.op_graph.nodes[_ok]
                             for _eq in _od.get('equations', []):
                                 _lhs, _rhs = (_s.strip() for _s in _eq.split('=', 1))
-                                expr_map[_lhs] = _subst(_rhs, expr_map)
+                                # (an intermediate variable is inlined as a whole: keep it in parentheses)
+                                expr_map[_lhs] = f"({_subst(_rhs, expr_map)})"
                             last_out = _od.get('output')
 
                         final_expr = expr_map.get(last_out, last_out)
